@@ -89,6 +89,13 @@ def arguments_sources():
         if i % 3 == 0:
             srcs.append(f'g = lambda {a}: 0' if a else 'g = lambda: 0')
     srcs.append('def f(p0: int = d0, /, a0: str = d1, *va: T, k0: U = e0, k1: V, **kw: W) -> R: pass')
+    # every parameter annotated, the def nested in another def and decorated: what a scope walk of the outer scope sees of
+    # the inner def (decorators, annotations, defaults, returns) must come in text order in both directions
+    import re
+    for i, a in enumerate(out):
+        ann = re.sub(r'(?<![=\w])([a-z]+\d*)(?=[=,]|$)', lambda m: f'{m.group(1)}: A_{m.group(1)}', a)
+        kind = ('def', 'async def')[i % 2]
+        srcs.append(f'def outer(x):\n    @deco\n    {kind} inner({ann}) -> ret:\n        hidden\n    return inner\n')
     return srcs
 
 
